@@ -5,7 +5,7 @@ from rules import tasks as T
 UNITS = ["lib/Core/BuildEngine.cpp", "lib/BuildSystem/BuildSystemFrontend.cpp", "lib/BuildSystem/BuildSystem.cpp",
          "lib/BuildSystem/ExternalCommand.cpp", "lib/BuildSystem/ShellCommand.cpp", "lib/Commands/BuildEngineCommand.cpp",
          "lib/Commands/NinjaBuildCommand.cpp", "products/libllbuild/Core-C-API.cpp", "products/libllbuild/BuildSystem-C-API.cpp",
-         "lib/Basic/Subprocess.cpp", "lib/Basic/LaneBasedExecutionQueue.cpp", "lib/Basic/SerialQueue.cpp"]
+         "lib/Basic/Subprocess.cpp", "lib/Basic/LaneBasedExecutionQueue.cpp", "lib/Basic/SerialQueue.cpp", "lib/Basic/ExecutionQueue.cpp"]
 THOROUGH_ALL_UNITS = False
 EXPLANATION = ("Decides: the cancellation routine modifies rule/task state only after its drain loop saw no outstanding task, with a "
                "lost-wake-up-free wait; it clears every work queue any engine function pushes to and resets every in-flight rule; a "
@@ -27,6 +27,10 @@ def run(ctx):
     E.r_cancel_delegates(prog, rep)
     E.r_outstanding_count(prog, rep)      # the drain waits for this count to reach zero
     E.r_cv_protocol(prog, rep)
+    # cancellation below the engine: the execution queue (an anchor file of this property) as C16 decides it
+    from sa.report import run_subset
+    from rules import C16
+    run_subset(C16, ctx, {"R-CANCEL-CLOSES-GROUP", "R-QUEUE-CV", "R-QUEUE-DRAIN", "R-SPAWN-UNDER-LOCK", "R-PROC-ORDER", "R-EINTR-RETRY"})
     E.r_epoch_persist(prog, rep)
     from rules import C04
     C04.engine_txn_pairing(prog, rep.rule("R-TXN-PAIRING", "a successful buildStarted is followed on every path out of build() — the early exit of a build "
